@@ -222,8 +222,8 @@ PROPS = {
     'C16': {
         'modules': ['contracts.card', 'contracts.iso_field'],
         'canaries': [
-            (CARD, "card_number[0:6] + mask_char", "card_number[0:7] + mask_char", "mask keeps 7 leading characters"),
-            (CARD, "(len(card_number)-10)", "(len(card_number)-11)", "mask one short"),
+            (CARD, "card_number[0:6] + mask_char", "card_number[0:7] + mask_char", "mask keeps 7 leading characters", "card.mask"),
+            (CARD, "(len(card_number)-10)", "(len(card_number)-11)", "mask one short", "card.mask"),
             (ISO, "    if field_processor == 'PAN':\n        field_data = mask(field_data)", "    if field_processor == 'PAN' and len(field_data) <= 19:\n        field_data = mask(field_data)", "long PAN values returned in clear", "_iso8583_to_field[LLLVAR,PAN"),
         ],
         'assumptions': ["decode level: per element shape (LLVAR / LLLVAR with PAN or PAN-PREFIX processor, with and without the explicit \"string\" type) for ANY bytes; that loads hands the caller's configuration to the decoder unchanged is the loads plumbing unit; that elements are cut from the message where the bitmap says is C08 (its units and stand-in run with C16)",
